@@ -532,7 +532,7 @@ def gen_op(rng, st):
         ops.append({'op': 'unrelated_write', 'spec': gen_spec(rng, ofmt),
                     'file': 'u%d.%s' % (cid, ofmt)})
     ops.append({'op': 'rewrite', 'cid': cid, 'from': rng.choice(['ack', 'path'])})
-    ops.append({'op': 'stubread', 'cid': cid})
+    ops.append({'op': 'stubread', 'cid': cid, 'hdr_nz0': rng.random() < 0.5})
     st.queue = ops
     return st.queue.pop(0)
 
@@ -784,6 +784,10 @@ def apply(st, op):
         # ---- C09 (b): reference encoder -> library reader
         m = truth['model']
         if fmt == 'uamiv':
+            if op.get('hdr_nz0') and m['nz'] == 1:
+                # a surface file whose grid header says 0 layers (older producers)
+                m = dict(m, hdr_nz=0)
+                w.probe('gridded_header_with_zero_layers')
             buf, _ = camx.encode_gridded(m)
         elif fmt == 'lateral_boundary':
             buf, _ = camx.encode_boundary(m)
